@@ -9,6 +9,27 @@ ENGINE_NOTE = ("Lean kernel; axioms propext/Classical.choice/Quot.sound; the eng
                "Lean driver and an independent naive least-model oracle; rustc, syn/quote, hash maps (C19), petgraph (validated by validOrder) and the "
                "evaluation of embedded Rust expressions (theorems hold for every interpretation) are modelled, not verified.")
 CLAIMS = {
+ "C06": dict(
+   engine="tie-B-engine",
+   technique="Lean 4 invariance theorems for the least model (permutations, renamings of relations / variables / constants, swaps of independent items) transferred to run() by C01 + metamorphic compiled-program correspondence",
+   text="Lean 4 theorems: the least model is invariant under permuting rules, head clauses and input rows (derivable_perm_rules/heads, inputDB_perm), "
+        "under injective renaming of relations (derivable_rename_rels), of variables (derivable_rename_vars, any interpretation whose expressions are renamed "
+        "soundly), under swapping adjacent body items neither of which binds a variable the other mentions (sat_swap_indep / derivable_swap_indep, decidable "
+        "syntactic criterion relative to the variables already bound) and commutes with every injective map on the constant domain for interpretations that "
+        "commute with it - i.e. programs without interpreted functions (derivable_rename_consts); all transferred to what run() computes (run_perm_invariant "
+        "and friends, via run_eq_leastModel). Tied metamorphically: each base program is compiled in permuted / renamed / re-typed (i64 -> i32 -> String) "
+        "variants that must all equal the base's naive least model (mapped).",
+   design_ref="DESIGN.md §8 C06", note=ENGINE_NOTE + " Names starting with two underscores and `_self` are reserved by the generated code; a user variable named like the repeated-variable gensym (`x_`) is finding F10 (see C07)."),
+ "C09": dict(
+   engine="tie-B-engine",
+   technique="Lean 4 theorems for the parts with logical content (re-declaration resolution, initialised relations) + compiled-variant correspondence for everything the model erases",
+   text="Lean 4 theorems: dedup_all_keep_last_by and the reverse name lookup select the same (last) declaration, so a later re-declaration wins consistently "
+        "(redeclaration_last_wins, redeclaration_unique, all declaration lists); `relation r(..) = e` starts from exactly the tuples of e: run() on the Default "
+        "value computes the least model over the initialisers with the initialiser as row prefix (init_starts_from_initialiser), while the double indexing "
+        "under ascent! is a kernel-checked witness of finding F3 (init_then_run_duplicates_agg_view). measure_rule_times, generate_run_timeout, generic struct "
+        "signatures, ascent_run!/ascent_run_par! capture, include_source! at first/middle/last position, ascent_par! and (thorough) segment-codegen are erased by "
+        "the model: every variant of every base program is compiled and must equal the base's model and naive oracle.",
+   design_ref="DESIGN.md §8 C09", note=ENGINE_NOTE + " For the erased configuration dimensions the claim rests on the correspondence (partial); rustc's macro_rules expansion of ascent_source!/include_source! is trusted."),
  "C03": dict(
    engine="tie-B-engine",
    technique="Lean 4 proof: lattice programs reach the least closed database (one row per key, closed, below every closed database) + compiled lattice-program correspondence",
